@@ -55,31 +55,30 @@ func pathMatches(target string, matches string) bool {
 		return target == matches
 	}
 
-	matchParts := algo.Window(algo.SplitKeep(matches, "*"), 2)
+	// FIXME doesn't account for relative folders ie `./docs/examples`
+	parts := algo.SplitKeep(matches, "*")
+	return partsMatch(target, parts)
+}
 
-	result := true
-	for _, part := range matchParts {
-		if len(part) == 1 {
-			if part[0] != "*" && target != part[0] {
-				result = false
-			}
-			break
-		} else if part[0] == "*" {
-			splitStart := strings.Index(target, part[1])
-			if splitStart == -1 {
-				target = ""
-			} else {
-				target = target[splitStart:]
-			}
-		} else if strings.HasPrefix(target, part[0]) {
-			target = strings.TrimPrefix(target, part[0])
-			// FIXME doesn't account for relative folders ie `./docs/examples`
-		} else {
-			result = false
-			break
+// partsMatch matches target against literal parts and "*" parts; a star stands
+// for any run of characters, so every possible split has to be tried, not only
+// the first occurrence of the text that follows the star.
+func partsMatch(target string, parts []string) bool {
+	if len(parts) == 0 {
+		return target == ""
+	}
+	if parts[0] != "*" {
+		return strings.HasPrefix(target, parts[0]) && partsMatch(target[len(parts[0]):], parts[1:])
+	}
+	if len(parts) == 1 {
+		return true
+	}
+	for i := 0; i <= len(target); i++ {
+		if partsMatch(target[i:], parts[1:]) {
+			return true
 		}
 	}
-	return result
+	return false
 }
 
 func directoryExists(entries []os.DirEntry, name string) bool {
